@@ -276,4 +276,156 @@ Section Phases.
          replace ((W - 1) * h + j - h * (W - 1)) with j by ring; unfold fkind; destruct (isedge h j); reflexivity
        | rewrite (proj2 (inr_false (h * (W - 1)) h (i * h + j))) by nia; reflexivity ] ]).
   Qed.
+
+  (* ---------------- y terms of interior rows *)
+  Definition fi (i : Z) : T := if isedge w i then edgef O (px sh) else n1 O.
+  Definition midrow (j : Z) : bool := (1 <=? j) && (j <? h - 1).
+
+  Lemma yint_spec LA i j : 0 <= i < w -> 0 <= j < h ->
+    yint O sh A LA (i * h + j) =
+      if midrow j then nadd O (LA (i * h + j)) (cen O A ffy (Some (fi i)) (i * h + j) (i * h + j - 1) (i * h + j + 1))
+      else LA (i * h + j).
+  Proof.
+    intros Hi Hj. unfold yint. cbv zeta.
+    set (term := fun f idx => cen O A ffy (Some f) idx (idx - 1) (idx + 1)).
+    set (body := fun i (s : (Z -> T) * Z * T) =>
+       (fst (loopz (h - 2) (fun _ s0 => st_add O (term (if i =? w - 1 then edgef O (px sh) else if i =? 1 then n1 O else snd s)) s0) (fst s)),
+        snd (loopz (h - 2) (fun _ s0 => st_add O (term (if i =? w - 1 then edgef O (px sh) else if i =? 1 then n1 O else snd s)) s0) (fst s)) + 2,
+        if i =? w - 1 then edgef O (px sh) else if i =? 1 then n1 O else snd s)).
+    assert (G : (fun s => forall i j, 0 <= j < h ->
+                   fst (fst s) (i * h + j) = if (0 <=? i) && (i <? w) && midrow j
+                                             then nadd O (LA (i * h + j)) (term (fi i) (i * h + j)) else LA (i * h + j))
+                (loopz w body (LA, 1, edgef O (px sh)))).
+    { apply (loopz_ind (fun k s => snd (fst s) = k * h + 1 /\ snd s = (if k =? 0 then edgef O (px sh) else fi (k - 1)) /\
+               forall i j, 0 <= j < h ->
+                 fst (fst s) (i * h + j) = if (0 <=? i) && (i <? k) && midrow j
+                                           then nadd O (LA (i * h + j)) (term (fi i) (i * h + j)) else LA (i * h + j))); [lia | |].
+      - cbn [fst snd]. repeat split. intros i0 j0 Hj0.
+        destruct (Z.leb_spec 0 i0); destruct (Z.ltb_spec i0 0); cbn [andb]; try reflexivity; lia.
+      - intros k s' Hk [I1 [I2 I3]]. unfold body.
+        assert (Ef : (if k =? w - 1 then edgef O (px sh) else if k =? 1 then n1 O else snd s') = fi k).
+        { unfold fi. rewrite I2.
+          destruct (Z.eqb_spec k (w - 1)) as [E1|E1].
+          - rewrite (proj2 (isedge_true w k)) by (right; auto). reflexivity.
+          - destruct (Z.eqb_spec k 1) as [E2|E2].
+            + rewrite (proj2 (isedge_false w k)) by lia. reflexivity.
+            + destruct (Z.eqb_spec k 0) as [E3|E3].
+              * rewrite (proj2 (isedge_true w k)) by (left; auto). reflexivity.
+              * rewrite (proj2 (isedge_false w k)) by lia. unfold fi.
+                rewrite (proj2 (isedge_false w (k - 1))) by lia. reflexivity. }
+        rewrite Ef.
+        pose proof (add_run O (h - 2) (term (fi k)) (fst (fst s')) (snd (fst s')) ltac:(lia)) as R. cbv zeta in R.
+        replace (fst (fst s'), snd (fst s')) with (fst s') in R by (destruct (fst s'); reflexivity).
+        destruct R as [R1 R2]. cbn [fst snd]. split; [rewrite R1, I1; ring|]. split.
+        { destruct (Z.eqb_spec (k + 1) 0); [lia|]. replace (k + 1 - 1) with k by ring. reflexivity. }
+        intros i0 j0 Hj0. rewrite R2, I1.
+        destruct (Z.eq_dec i0 k) as [->|Hne].
+        + destruct (midrow j0) eqn:M.
+          * unfold midrow in M. apply andb_true_iff in M. destruct M as [M1 M2]. apply Z.leb_le in M1. apply Z.ltb_lt in M2.
+            rewrite (proj2 (inr_true (k * h + 1) (h - 2) (k * h + j0))) by lia.
+            rewrite I3 by auto. destruct (Z.ltb_spec k k); [lia|]. rewrite andb_false_r. cbn [andb].
+            destruct (Z.leb_spec 0 k); [|lia]. destruct (Z.ltb_spec k (k + 1)); [|lia]. reflexivity.
+          * rewrite (proj2 (inr_false (k * h + 1) (h - 2) (k * h + j0))).
+            2:{ unfold midrow in M. apply andb_false_iff in M. rewrite Z.leb_gt, Z.ltb_ge in M. lia. }
+            rewrite I3 by auto. rewrite ?M, !andb_false_r. reflexivity.
+        + rewrite (proj2 (inr_false (k * h + 1) (h - 2) (i0 * h + j0))).
+          2:{ intros Hin. apply Hne. apply (flat_col h i0 j0 k); lia. }
+          rewrite I3 by auto.
+          destruct (Z.leb_spec 0 i0); destruct (Z.ltb_spec i0 k); destruct (Z.ltb_spec i0 (k + 1)); cbn [andb]; try reflexivity; lia. }
+    match goal with |- fst (fst (loopz _ ?b ?s0)) _ = _ =>
+      replace (loopz w b s0) with (loopz w body s0) by (apply loopz_ext_body; intros; reflexivity) end.
+    rewrite G by auto.
+    destruct (Z.leb_spec 0 i); [|lia]. destruct (Z.ltb_spec i w); [|lia]. cbn [andb]. reflexivity.
+  Qed.
+
+  (* ---------------- y terms of the two edge rows *)
+  Definition ytl (f : option T) (idx : Z) : T :=
+    if py sh then cen O A ffy f idx (idx + (h - 1)) (idx + 1) else one_sided O A ffy f idx (idx + 1).
+  Definition ytr (f : option T) (idx : Z) : T :=
+    if py sh then cen O A ffy f idx (idx - 1) (idx - (h - 1)) else one_sided O A ffy f idx (idx + -1).
+
+  Lemma pair_add_one (vl vr : Z -> T) (s : (Z -> T) * Z * Z) : snd s <> snd (fst s) ->
+    forall q, fst (fst (pair_add O sh vl vr s)) q =
+      if q =? snd s then nadd O (fst (fst s) q) (vr q)
+      else if q =? snd (fst s) then nadd O (fst (fst s) q) (vl q) else fst (fst s) q.
+  Proof.
+    intros Hne q. unfold pair_add. cbn [fst snd].
+    destruct (Z.eqb_spec q (snd s)) as [->|H2].
+    - rewrite updz_same. rewrite updz_other by auto. reflexivity.
+    - rewrite updz_other by auto.
+      destruct (Z.eqb_spec q (snd (fst s))) as [->|H1]; [apply updz_same|]. rewrite updz_other by auto. reflexivity.
+  Qed.
+
+  Definition yrow_val (LA : Z -> T) (k : Z) (i j : Z) : T :=
+    if (0 <=? i) && (i <? k)
+    then (if j =? 0 then nadd O (LA (i * h + j)) (ytl (fkind (px sh) w i) (i * h + j))
+          else if j =? h - 1 then nadd O (LA (i * h + j)) (ytr (fkind (px sh) w i) (i * h + j))
+          else LA (i * h + j))
+    else LA (i * h + j).
+
+  Definition yedge_inv (LA : Z -> T) (k : Z) (s : (Z -> T) * Z * Z) : Prop :=
+    snd (fst s) = k * h /\ snd s = k * h + (h - 1) /\
+    forall i j, 0 <= j < h -> fst (fst s) (i * h + j) = yrow_val LA k i j.
+
+  Lemma yedge_step LA k s f : 0 <= k -> f = fkind (px sh) w k -> yedge_inv LA k s ->
+    yedge_inv LA (k + 1) (pair_add O sh (ytl f) (ytr f) s).
+  Proof.
+    intros Hk Hf [I1 [I2 I3]]. subst f. unfold yedge_inv. repeat split.
+    - unfold pair_add. cbn [fst snd]. rewrite I1. ring.
+    - unfold pair_add. cbn [fst snd]. rewrite I2. ring.
+    - intros i j Hj. rewrite pair_add_one by lia. rewrite I1, I2. unfold yrow_val.
+      destruct (Z.eqb_spec (i * h + j) (k * h + (h - 1))) as [E|E].
+      + apply (flat_eq h i j k (h - 1)) in E; try lia. destruct E as [-> ->].
+        rewrite I3 by lia. unfold yrow_val.
+        destruct (Z.ltb_spec k k); [lia|]. rewrite andb_false_r.
+        destruct (Z.leb_spec 0 k); [|lia]. destruct (Z.ltb_spec k (k + 1)); [|lia]. cbn [andb].
+        destruct (Z.eqb_spec (h - 1) 0); [lia|]. rewrite Z.eqb_refl. reflexivity.
+      + destruct (Z.eqb_spec (i * h + j) (k * h)) as [E'|E'].
+        * replace (k * h) with (k * h + 0) in E' by ring. apply (flat_eq h i j k 0) in E'; try lia. destruct E' as [-> ->].
+          rewrite I3 by lia. unfold yrow_val.
+          destruct (Z.ltb_spec k k); [lia|]. rewrite andb_false_r.
+          destruct (Z.leb_spec 0 k); [|lia]. destruct (Z.ltb_spec k (k + 1)); [|lia]. cbn [andb]. reflexivity.
+        * rewrite I3 by auto. unfold yrow_val.
+          destruct (Z.eq_dec i k) as [->|Hne].
+          -- assert (j <> 0) by (intros ->; apply E'; ring). assert (j <> h - 1) by (intros ->; apply E; ring).
+             destruct (Z.ltb_spec k k); [lia|]. rewrite andb_false_r.
+             destruct (Z.leb_spec 0 k); [|lia]. destruct (Z.ltb_spec k (k + 1)); [|lia]. cbn [andb].
+             destruct (Z.eqb_spec j 0); [contradiction|]. destruct (Z.eqb_spec j (h - 1)); [contradiction|]. reflexivity.
+          -- destruct (Z.leb_spec 0 i); destruct (Z.ltb_spec i k); destruct (Z.ltb_spec i (k + 1)); cbn [andb]; try reflexivity; lia.
+  Qed.
+
+  Lemma yedge_spec LA i j : 0 <= i < w -> 0 <= j < h ->
+    yedge O sh A LA (i * h + j) =
+      if j =? 0 then nadd O (LA (i * h + j)) (ytl (fkind (px sh) w i) (i * h + j))
+      else if j =? h - 1 then nadd O (LA (i * h + j)) (ytr (fkind (px sh) w i) (i * h + j))
+      else LA (i * h + j).
+  Proof.
+    intros Hi Hj. unfold yedge. cbv beta zeta.
+    assert (I0 : yedge_inv LA 0 (LA, 0, h - 1)).
+    { unfold yedge_inv. cbn [fst snd]. repeat split; try ring. intros i0 j0 Hj0. unfold yrow_val.
+      destruct (Z.leb_spec 0 i0); destruct (Z.ltb_spec i0 0); cbn [andb]; try reflexivity; lia. }
+    assert (Fe : forall k, k = 0 \/ k = w - 1 -> Some (edgef O (px sh)) = fkind (px sh) w k).
+    { intros k Hk. unfold fkind. rewrite (proj2 (isedge_true w k)) by auto. reflexivity. }
+    assert (Fm : forall k, 0 < k < w - 1 -> None = fkind (px sh) w k).
+    { intros k Hk. unfold fkind. rewrite (proj2 (isedge_false w k)) by lia. reflexivity. }
+    assert (E : forall f s,
+      pair_add O sh (fun idx => if py sh then cen O A ffy f idx (idx + (if py sh then h - 1 else -1)) (idx + 1)
+                                else one_sided O A ffy f idx (idx + 1))
+                    (fun idx => if py sh then cen O A ffy f idx (idx - 1) (idx - (if py sh then h - 1 else -1))
+                                else one_sided O A ffy f idx (idx + (if py sh then h - 1 else -1))) s
+      = pair_add O sh (ytl f) (ytr f) s)
+      by (intros; unfold pair_add, ytl, ytr; destruct (py sh); reflexivity).
+    cbv beta. rewrite !E.
+    rewrite (loopz_ext_body (w - 2) _ (fun _ s => pair_add O sh (ytl None) (ytr None) s)) by (intros; apply E).
+    pose proof (yedge_step LA 0 _ _ ltac:(lia) (Fe 0 ltac:(left; reflexivity)) I0) as I1.
+    assert (I2 : yedge_inv LA (1 + (w - 2))
+                   (loopz (w - 2) (fun _ s => pair_add O sh (ytl None) (ytr None) s)
+                      (pair_add O sh (ytl (Some (edgef O (px sh)))) (ytr (Some (edgef O (px sh)))) (LA, 0, h - 1)))).
+    { apply (loopz_ind (fun k s => yedge_inv LA (1 + k) s)); [lia | exact I1 |].
+      intros k s' Hk Inv. replace (1 + (k + 1)) with ((1 + k) + 1) by ring.
+      apply yedge_step; [lia | apply Fm; lia | exact Inv]. }
+    pose proof (yedge_step LA (1 + (w - 2)) _ _ ltac:(lia) (Fe (1 + (w - 2)) ltac:(right; lia)) I2) as I3.
+    destruct I3 as [_ [_ I3]]. rewrite I3 by auto. unfold yrow_val.
+    destruct (Z.leb_spec 0 i); [|lia]. destruct (Z.ltb_spec i (1 + (w - 2) + 1)); [|lia]. cbn [andb]. reflexivity.
+  Qed.
 End Phases.
